@@ -174,7 +174,9 @@ class WriteHandler(Handler):
         def method(module, value, pname=key, func=self.func):
             with module.accessLock:
                 value = func(module, pname, value)
-                setattr(module, pname, value)
+                if value is not None:
+                    # None: the wrapper of write_<param> takes the validated value
+                    setattr(module, pname, value)
                 return value
         return method
 
